@@ -91,6 +91,20 @@ def gen(rng, tier):
             for f in (fa, fb):
                 for v in ("V", "-"):
                     lines.append(P(["t%d" % ht, "d" + good.hex()] + tl, v, f))
+    # the file changes under a context whose pins were already used once (validate_lead on the pinned file, or a refused
+    # length followed by clear-error and the right length): the pins must still hold for the next read
+    for ht, fa, dga, ta in bases:
+        hb = zckfmt.Hdr(ht=ht, cht=1, chunks=hdrgen.mk_chunks(rng, 2, 1, False))
+        fb = hb.build() + b"B2"
+        tb = len(hb.build())
+        good = hexstr(dga)
+        for seq in (["t%d" % ht, "d" + good.hex(), "v", "F" + fb.hex()],
+                    ["t%d" % ht, "d" + good.hex(), "s%d" % ta, "v", "v", "F" + fb.hex()],
+                    ["t%d" % ht, "d" + good.hex(), "s%d" % (ta + 1), "v", "e", "s%d" % tb, "F" + fb.hex()],
+                    ["t%d" % ht, "d" + good.hex(), "s%d" % (ta + 1), "v", "s%d" % ta, "v", "F" + fb.hex(), "v"],
+                    ["t%d" % ht, "d" + good.hex(), "v", "F" + fb.hex(), "F" + fa.hex()]):
+            for v in ("V", "-"):
+                lines.append(P(seq, v, fa))
     # random digests strings made of arbitrary bytes
     for _ in range(300 if tier == "quick" else 5000):
         ht, f, dg, total = rng.choice(bases)
@@ -138,6 +152,9 @@ def run(res, tier, only_case=None):
         # direct oracle on the option setter: a digest string is accepted iff right length and all hex
         _, ops, v, fhex = line.split()
         f = vlib.unhex(fhex)
+        for o_ in ([] if ops == "-" else ops.split(",")):
+            if o_[0] == "F":
+                f = vlib.unhex(o_[1:])      # the file the final open sees
         lead = zckfmt.parse_lead(f)
         fields = dict(x.split("=", 1) for x in i.split(" ", 3)[:3]) if i.startswith("set=") else {}
         oplist = [] if ops == "-" else ops.split(",")
